@@ -158,7 +158,7 @@ def check_history(case, obs, viol):
     except Exception as exc:  # noqa
         viol.append({"kind": "history-raises", "what": f"history() raised {type(exc).__name__}: {str(exc)[:100]}"})
         return 0
-    if "feature" in h_all.columns and set(h_all["feature"]) - {"f"}:
+    if "feature" in h_all.columns and set(h_all["feature"]) - ({"f", "g"} if case.get("companion") else {"f"}):
         viol.append({"kind": "history-features", "what": f"history() holds features {set(h_all['feature'])}"})
     cfg = c01.resolved_cfg(case)
     sort_by = cfg["sort_by"]
@@ -257,6 +257,16 @@ def run_case(case):
         res["outcome"] = "fit-" + fit["status"]
         return res
     carver = fit["carver"]
+    # history() is a pure observer: calling it (for all features, repeatedly) never changes what it reports
+    try:
+        snap = {f: len(carver.history(f)) for f in list(carver._history)}  # noqa
+        n1 = len(carver.history())
+        n2 = len(carver.history())
+        snap2 = {f: len(carver.history(f)) for f in list(carver._history)}  # noqa
+        if n1 != n2 or snap != snap2:
+            viol.append({"kind": "history-not-pure", "what": f"history() changes what history reports: all-features rows {n1} -> {n2}, per feature {snap} -> {snap2}"})
+    except Exception as exc:  # noqa
+        viol.append({"kind": "history-raises", "what": f"history() raised {type(exc).__name__}: {str(exc)[:100]}"})
     if "base" not in obs or obs["problems"]:
         res["outcome"] = "no-base"
         return res
@@ -305,6 +315,13 @@ def run(tier, seed, rep):
             c["type"] = "carver"
         cases += cs
         transitions += tr
+    # two features fitted together (history / summary are per feature)
+    for carver in ("binary", "continuous"):
+        for kind in ("ORD", "QNT", "CAT"):
+            tabs, tr = carving_space.tables(carver, kind, tier, kmax=3)
+            for cells in tabs[:: 4 if tier == "quick" else 1]:
+                cfg = {"sort_by": "tschuprowt", "max_n_mod": 3, "min_freq": 0.1, "min_freq_mod": None, "output_dtype": "float", "dropna": True}
+                cases.append({"type": "carver", "carver": carver, "kind": kind, "cells": [list(x) for x in cells], "nan": None, "dev": None, "cfg": cfg, "seed": seed, "companion": "q2"})
     dcases, tr = disc_space.enumerate_cases(tier, seed, "discretizers")
     transitions += tr
     for c in dcases:
